@@ -190,7 +190,7 @@ def main(argv_tier=None, replay_path=None):
         proc_cases = [(sc.SCHEMES[(off + 4 * j) % len(sc.SCHEMES)], j) for j in range(3)]
     else:
         proc_cases = [(s, j) for s in sc.SCHEMES for j in range(3)]
-    pevs = pmap(lambda a: c09_proc.run_proc(a[1][0], a[1][1]), list(enumerate(proc_cases)), nproc=6)
+    pevs = pmap(lambda a: c09_proc.run_proc(a[1][0], a[1][1], a[0]), list(enumerate(proc_cases)), nproc=6)
     for (i, (s, j)), ev in zip(enumerate(proc_cases), pevs):
         traces.append({"tid": "proc%d" % i, "ev": ev, "scheme": s, "history": ["run_client.py"] + [e["op"] for e in ev], "cli_k": j})
     verdicts, agg = validate_traces("Trace_ClientSM", [{"tid": t["tid"], "ev": t["ev"]} for t in traces])
